@@ -1,6 +1,7 @@
 import XpmVerif.Basic.JsonUtil
 import XpmVerif.Model.Specs
 import XpmVerif.Model.SpecsParse
+import XpmVerif.Model.SpecsLex
 /-! Line-protocol driver for M8 (C18).  `lake env lean --run Drive/C18.lean < ops.jsonl` -/
 open Lean XpmVerif XpmVerif.J XpmVerif.Specs
 
@@ -74,6 +75,12 @@ def step (_ : Unit) (j : Json) : Unit × Json :=
       (match (parseToks ((arrF j "toks").map tokOf)).bind evalAlt with
        | some rs => Json.mkObj [("reqs", Json.arr (rs.map reqJ).toArray)]
        | none => Json.mkObj [("reqs", Json.str "error")])
+    | "lextext" =>   -- character level: lexer, token grammar, visitor semantics
+      (match evalText (strF j "text") with
+       | some rs => Json.mkObj [("reqs", Json.arr (rs.map reqJ).toArray)]
+       | none => Json.mkObj [("reqs", Json.str "error")])
+    | "size" => Json.mkObj [("v", optJ (fun (n : Nat) => (n : Json)) (parseSize (strF j "text").toList))]
+    | "timespan" => Json.mkObj [("v", optJ (fun (n : Nat) => (n : Json)) (parseTimespan (strF j "text").toList))]
     | op => Json.mkObj [("error", Json.str s!"bad-op {op}")]
   ((), out)
 
